@@ -50,7 +50,7 @@ META = {
                   'derived_datainfo_equiv_statement (every well-formed tree, no condition) stays a statement: missing are GridStable for the carrier and finiteness of the limits\' grid values.  '
                   'create_modules_registers (Node/CreateModules models get_module_instance / add_module / get_module with the recursive resolution of Attached properties / the loop of create_modules with Pinatas: '
                   'for EVERY configuration - any declaration order, attachments, scans - the list the report is made from is exactly the created module objects with export=True, in their order of creation; a module created before its own turn is registered like any other), '
-                  'create_modules_once, describe_follows_registration / report_lists_created_exported (the modules of the report = the created objects with the flag set), '
+                  'create_modules_creates (no error counted => every configured module exists afterwards), create_modules_once, allRegistered_of_registeredOK (what the monitor on the implementation demands follows), describe_follows_registration / report_lists_created_exported (the modules of the report = the created objects with the flag set), '
                   'retype_reported / retype_dispatched / retype_other_stable / retype_other_module / retype_same_modules (Node/Retype: module code gives a LIVE parameter a new datatype - the entry of that parameter states the new datainfo, the dispatcher validates with it, every other entry, the module list and the module properties are unchanged), '
                   'stableExceptB_sound, live_scaled_described (configured_scaled_described for a limit set at run time by datatype.set_properties).  '
                   'Tied to secnode.py / params.py / modulebase.py / properties.py / dispatcher.py / datatypes.py by correspondence runs (create_modules: configuration order + attached names + Pinata scans -> SecNode.modules / SecNode.export DERIVED by the model; '
@@ -75,8 +75,7 @@ META = {
     'modelled_not_verified': [
         'create_modules: errors (unknown attached name, cyclic dependency) are only counted by the model, the correspondence is run on nodes frappy builds without errors; '
         'io modules auto-created by HasIO (add_module inside a constructor) are not modelled - on the shipped configurations only the registration monitor runs',
-        'live datatype changes: only set_properties(min / max / unit) on numeric top-level datatypes is generated; replacing the datatype object of a live parameter is not; '
-        'no theorem that every configured module is created when the model counts no error',
+        'live datatype changes: only set_properties(min / max / unit) on numeric top-level datatypes is generated; replacing the datatype object of a live parameter is not',
         'configuration keys of a datatype other than min / max (unit, fmtstr, resolutions, lengths): generated and judged by the monitors, but they reach the model through the tree read from the real object',
         'datatype stream: LimitsType / StatusType / TextType parameters are left out (not one of the ten kinds of the datatype model)',
         'the MRO itself (Python C3 linearisation) and the qualified class name are data from the real class',
